@@ -226,7 +226,9 @@ pub fn main(args: &crate::Args) {
             rep.violation(&key, &format!("{o} [{name}]"), &json!({"name": name, "mode": mode, "input_hex": hex(&bytes[..bytes.len().min(8000)]), "input_len": bytes.len()}));
         }
     }
-    if done != cases.len() {
+    if let Some(h) = crate::workers::stopped_early() {
+        rep.caps.push(format!("stopped after {h} calls that did not return within the deadline: {} of {} cases were not run", cases.len() - done, cases.len()));
+    } else if done != cases.len() {
         crate::explore::machinery_failure(&format!("only {done} of {} cases reported", cases.len()));
     }
     rep.rule = format!("monitor = {monitor} (worker subprocesses of a sanitizer build, exact-size heap buffers). (1) {n_valid} valid streams: jxlw images of every shape W x H over 1..{max}{} x 8 transform stacks (none, RCT, squeeze default/h/v+h, palette, delta palette, RCT+squeeze) with 16-bit buffers declared, each decoded narrow, wide and narrow with a 4-thread rayon pool, plus the whole corpus and cmyk_layers.jxl; (2) {n_hostile} hostile inputs of C01's 1-deviation space with its call histories; (3) {n_kernel} kernel jobs: inverse-squeeze h/v kernels base / SSE4.1 / AVX2 for every w <= 80, h <= 24 (also compared with the base kernel) and the varblock transforms generic / SSE2 / SSE4.1 for all 27 types at three alignments. Oracle: no sanitizer report, no abnormal exit, no hang.", if quick { " (quick: H <= 12, H = W, 19, 33)" } else { " and group/lane edges" });
@@ -241,7 +243,7 @@ pub fn main(args: &crate::Args) {
             }
         }
     }
-    rep.exhaustive = true;
+    rep.exhaustive = crate::workers::stopped_early().is_none();
     rep.assumptions = vec!["a sanitizer only sees executed accesses: exhaustive over the enumerated shapes / inputs / kernels, not over all inputs".into(), "AddressSanitizer does not see reads of uninitialised memory; MemorySanitizer is the monitor for that".into(), "a MemorySanitizer use-of-uninitialized-value report is discounted (and listed in coverage) only if both its use site and its stack origin lie in source files of /repo without any unsafe code: safe Rust cannot read uninitialised memory, such reports come from the optimiser computing on an enum payload before selecting on the discriminant; the case's remaining calls are then not monitored".into()];
     rep.finish();
 }
